@@ -11,6 +11,16 @@
   this is the model's `hasDup`.
   `KeyGen`'s `while SK == 0` loop is translated as a recursion on a `fuel` argument; `KeyGen_fuel_eq` states, for EVERY fuel
   `f`, that the generated function with fuel `f` is the model's loop with fuel `f` (the model's `keyGen` fixes `f = 64`).
+
+  Robustness against behaviour-preserving rewrites of the Python.  The tie statements are about the top-level generated
+  functions only.  A generated loop body / loop function takes the locals that are free in the loop as parameters, so its
+  signature changes when the Python hoists an invariant out of the loop or renames a local; therefore no statement here
+  mentions a loop body applied to arguments: `forM_guard`, `forM_skip`, `aggLoop_eq`, `KeyGen_loop_eq` are about an ARBITRARY
+  function satisfying the loop body's defining equation(s), the function is found by unification with the goal, and the
+  equation is checked on the spot by unfolding the generated definition by name.  Proofs about branching tails case-split on
+  the tests first and then normalise both sides (`simp`), so that an `if c: return False` chain and the equivalent boolean
+  expression / `return c and f(..)` are both accepted.  (The translator itself maps `all(..)` / `any(..)` guards to the loop
+  they abbreviate, `not a == b` to `a != b`, `return a and f(..)` to the early-exit form: see py2lean_bls.py.)
 -/
 import PyEcc.Props.TieBls
 
@@ -43,39 +53,37 @@ theorem Bls.forM_skip {α : Type} (g : α → Except PyErr PUnit) (hg : ∀ x, g
     model's `aggregate`. -/
 theorem Bls.Aggregate_eq (sigs : List Bytes) : Gen.ExtraBls.Aggregate sigs = aggregate sigs := by
   unfold Gen.ExtraBls.Aggregate aggregate
-  rw [Bls.forM_guard Gen.ExtraBls.Aggregate_loop0 (fun x => decide (x.length = 96)) PyErr.validation]
-  · by_cases h1 : sigs.length < 1 <;> simp only [h1, ↓reduceIte]
-    · rfl
-    cases h2 : (sigs.all fun x => decide (List.length x = 96)) <;> rfl
-  · intro x
-    unfold Gen.ExtraBls.Aggregate_loop0
-    rw [Bls.is_valid_signature_eq]
+  rw [Bls.forM_guard _ (fun x => decide (x.length = 96)) PyErr.validation ?hsig]
+  case hsig =>
+    intro x
+    simp only [Gen.ExtraBls.Aggregate_loop0, Bls.is_valid_signature_eq]
     cases decide (x.length = 96) <;> rfl
+  by_cases h1 : sigs.length < 1 <;> simp only [h1, ↓reduceIte]
+  · rfl
+  cases h2 : (sigs.all fun x => decide (List.length x = 96)) <;> rfl
 
 /-! ### _CoreAggregateVerify -/
 
-/-- one iteration of the `for pk, message in zip(PKs, messages)` loop of `_CoreAggregateVerify`, as translated -/
-theorem Bls.agg_step (H : HashFn) (dst : Bytes) (acc : OBls12) (pk msg : Bytes) :
-    Gen.ExtraBls._CoreAggregateVerify_try_loop2 H dst acc (pk, msg) =
+/-- A loop `List.foldlM g acc l` whose step `g` behaves like one iteration of the `for pk, message in zip(PKs, messages)` loop
+    of `_CoreAggregateVerify` (`KeyValidate`, `pubkey_to_G1`, `hash_to_G2`, `pairing`, accumulate) computes the first
+    component of the model's `aggLoop`, from every accumulator.  Stated about an arbitrary step function `g`, not about the
+    generated loop body applied to a fixed list of arguments: the generated body takes the locals that are free in the loop
+    as parameters (`H`, `DST`, and whatever a refactoring hoists out of the loop); `CoreAggregateVerify_try_eq` checks the
+    hypothesis `hg` for the generated body by unfolding it. -/
+theorem Bls.aggLoop_eq (H : HashFn) (dst : Bytes) (g : OBls12 → Bytes × Bytes → Except PyErr OBls12)
+    (hg : ∀ (acc : OBls12) (pk msg : Bytes), g acc (pk, msg) =
       (do if !(keyValidate pk) then throw PyErr.validation
           let pkPt ← pubkeyToG1 pk
           let mp ← hashToG2 H msg dst
           let e ← pairingOptBls mp pkPt false
-          pure (acc * e)) := by
-  unfold Gen.ExtraBls._CoreAggregateVerify_try_loop2
-  simp only [Bls.KeyValidate_eq, pure_bind]
-
-/-- the translated loop (`List.foldlM` of the translated body over `zip(PKs, messages)`) computes the first component of
-    the model's `aggLoop`, from every accumulator -/
-theorem Bls.aggLoop_eq (H : HashFn) (dst : Bytes) (l : List (Bytes × Bytes)) (acc : OBls12)
-    (tr : List (G2Pt × G1Pt)) :
-    List.foldlM (Gen.ExtraBls._CoreAggregateVerify_try_loop2 H dst) acc l =
-      (aggLoop H dst l acc tr).map (·.1) := by
+          pure (acc * e)))
+    (l : List (Bytes × Bytes)) (acc : OBls12) (tr : List (G2Pt × G1Pt)) :
+    List.foldlM g acc l = (aggLoop H dst l acc tr).map (·.1) := by
   induction l generalizing acc tr with
   | nil => rfl
   | cons p t ih =>
     obtain ⟨pk, msg⟩ := p
-    rw [List.foldlM_cons, Bls.agg_step]
+    rw [List.foldlM_cons, hg]
     unfold aggLoop
     cases keyValidate pk
     · rfl
@@ -91,18 +99,7 @@ theorem Bls.aggLoop_eq (H : HashFn) (dst : Bytes) (l : List (Bytes × Bytes)) (a
         | error e => rfl
         | ok c => exact ih _ _
 
-theorem Bls.agg_pubkey_loop (s : Suite) (pk : Bytes) :
-    Gen.ExtraBls._CoreAggregateVerify_try_loop0 s pk =
-      if isValidPubkey s pk = true then pure PUnit.unit else throw PyErr.validation := by
-  unfold Gen.ExtraBls._CoreAggregateVerify_try_loop0
-  rw [Bls.is_valid_pubkey_eq]
-  cases isValidPubkey s pk <;> rfl
-
-theorem Bls.agg_message_loop (m : Bytes) : Gen.ExtraBls._CoreAggregateVerify_try_loop1 m = pure PUnit.unit := by
-  unfold Gen.ExtraBls._CoreAggregateVerify_try_loop1
-  rw [Bls.is_valid_message_eq]
-  rfl
-
+set_option linter.unusedSimpArgs false in  -- `eq_comm` below is only needed when the source compares the lengths the other way round
 set_option maxRecDepth 2048 in
 /-- The body of the `try` statement of `_CoreAggregateVerify` as translated from the source (the two validation loops, the
     length comparison, the signature check, the `n < 1` precondition — in source order —, `signature_to_G2`, the subgroup
@@ -112,12 +109,25 @@ theorem Bls.CoreAggregateVerify_try_eq (H : HashFn) (s : Suite) (pks msgs : List
     Gen.ExtraBls._CoreAggregateVerify_try H s pks msgs sig dst =
       (coreAggregateVerifyBody H s pks msgs sig dst).map (·.1) := by
   unfold Gen.ExtraBls._CoreAggregateVerify_try coreAggregateVerifyBody
-  rw [Bls.forM_guard _ (isValidPubkey s) PyErr.validation (Bls.agg_pubkey_loop s),
-    Bls.forM_skip _ Bls.agg_message_loop, Bls.is_valid_signature_eq]
-  simp only [Bls.aggLoop_eq H dst _ _ []]
+  -- the two validation loops (whatever arguments the generated loop bodies take)
+  rw [Bls.forM_guard _ (isValidPubkey s) PyErr.validation ?hpk, Bls.forM_skip _ ?hmsg, Bls.is_valid_signature_eq]
+  case hpk =>
+    intro pk
+    simp only [Gen.ExtraBls._CoreAggregateVerify_try_loop0, Bls.is_valid_pubkey_eq]
+    cases isValidPubkey s pk <;> rfl
+  case hmsg =>
+    intro m
+    simp only [Gen.ExtraBls._CoreAggregateVerify_try_loop1, Bls.is_valid_message_eq]
+    rfl
+  -- the accumulation loop: `aggLoop_eq`, its hypothesis checked by unfolding the generated loop body
+  dsimp only
+  rw [Bls.aggLoop_eq H dst _ ?hg _ _ []]
+  case hg =>
+    intro acc pk msg
+    simp only [Gen.ExtraBls._CoreAggregateVerify_try_loop2, Bls.KeyValidate_eq, pure_bind]
   simp only [bind, Except.bind, pure, Except.pure, throw, throwThe, MonadExceptOf.throw, Except.map]
   cases h1 : pks.all (isValidPubkey s) <;> simp
-  by_cases h2 : pks.length = msgs.length <;> simp [h2]
+  by_cases h2 : pks.length = msgs.length <;> simp [h2, eq_comm (a := msgs.length)]
   by_cases h3 : sig.length = 96 <;> simp [h3]
   by_cases h4 : pks = [] <;> simp [h4]
   cases signatureToG2 sig <;> simp
@@ -196,8 +206,11 @@ theorem Bls.aug_messages_eq (pks msgs : List Bytes) :
 theorem Bls.AggregateVerify_eq (H : HashFn) (s : Suite) (pks msgs : List Bytes) (sig : Bytes) :
     Gen.ExtraBls.AggregateVerify H s pks msgs sig = aggregateVerify H s pks msgs sig := by
   cases s
-  · simp only [Gen.ExtraBls.AggregateVerify, Gen.ExtraBls.G2Basic.AggregateVerify, aggregateVerify,
-      Bls.CoreAggregateVerify_eq, Bls.DST_eq, Bls.hasDup_eq, decide_eq_true_eq]
+  · -- case split on the distinctness test, then normalise: the proof does not depend on how the source spells the early exit
+    -- (`if len(..) != len(set(..)): return False` or `return <unique> and cls._CoreAggregateVerify(..)`)
+    by_cases h : msgs.length = msgs.eraseDups.length <;>
+      simp [Gen.ExtraBls.AggregateVerify, Gen.ExtraBls.G2Basic.AggregateVerify, aggregateVerify,
+        Bls.CoreAggregateVerify_eq, Bls.DST_eq, Bls.hasDup_eq, h]
   · simp only [Gen.ExtraBls.AggregateVerify, Gen.ExtraBls.G2MessageAugmentation.AggregateVerify, aggregateVerify,
       Bls.CoreAggregateVerify_eq, Bls.DST_eq, Bls.aug_messages_eq]
   · simp only [Gen.ExtraBls.AggregateVerify, Gen.ExtraBls.G2ProofOfPossession.AggregateVerify, aggregateVerify,
@@ -214,13 +227,6 @@ theorem Bls.AggregatePKs_eq (pks : List Bytes) : Gen.ExtraBls._AggregatePKs pks 
 theorem Bls.caught2_eq (e : PyErr) : (e = PyErr.validation ∨ e = PyErr.assertion) ↔ caught2 e = true := by
   cases e <;> simp [caught2]
 
-theorem Bls.fast_pubkey_loop (pk : Bytes) :
-    Gen.ExtraBls.FastAggregateVerify_try_loop0 pk =
-      if isValidPubkey .pop pk = true then pure PUnit.unit else throw PyErr.validation := by
-  unfold Gen.ExtraBls.FastAggregateVerify_try_loop0
-  rw [Bls.is_valid_pubkey_eq]
-  cases isValidPubkey .pop pk <;> rfl
-
 /-- `G2ProofOfPossession.FastAggregateVerify(PKs, message, signature)` as translated from the source (`try:` the validation
     loop, the message and signature checks, the `n < 1` precondition, `_AggregatePKs`; `except (ValidationError,
     AssertionError): return False` — a `ValueError` from `pubkey_to_G1` propagates —; `else: cls.Verify(..)`) is the model's
@@ -234,8 +240,12 @@ theorem Bls.FastAggregateVerify_eq (H : HashFn) (pks : List Bytes) (msg sig : By
           if pks.length < 1 then throw PyErr.validation
           aggregatePKs pks) := by
     unfold Gen.ExtraBls.FastAggregateVerify_try
-    rw [Bls.forM_guard _ (isValidPubkey .pop) PyErr.validation Bls.fast_pubkey_loop, Bls.is_valid_message_eq,
+    rw [Bls.forM_guard _ (isValidPubkey .pop) PyErr.validation ?hpk, Bls.is_valid_message_eq,
       Bls.is_valid_signature_eq, Bls.AggregatePKs_eq]
+    case hpk =>
+      intro pk
+      simp only [Gen.ExtraBls.FastAggregateVerify_try_loop0, Bls.is_valid_pubkey_eq]
+      cases isValidPubkey .pop pk <;> rfl
     cases h1 : pks.all (isValidPubkey .pop)
     · rfl
     by_cases h3 : sig.length = 96 <;> simp [h3] <;> rfl
@@ -250,17 +260,31 @@ theorem Bls.FastAggregateVerify_eq (H : HashFn) (pks : List Bytes) (msg sig : By
     its value as a literal; it is the dumped module constant the model uses -/
 theorem Bls.keygen_L_eq : (48 : Nat) = suites_keygen_L := by rfl
 
-/-- the `while SK == 0` loop of `KeyGen` as translated (a recursion on `fuel` over the state `(SK, salt)`), started with
-    `SK = 0`, computes the model's `keyGenLoop` with the same fuel, from every salt -/
-theorem Bls.KeyGen_loop_eq (H : HashFn) (ikm keyInfo : Bytes) :
-    ∀ (f : Nat) (salt : Bytes),
-      (Gen.ExtraBls.KeyGen_loop H ikm keyInfo f (0, salt)).map (·.1) = keyGenLoop H ikm keyInfo f salt := by
+/-- Any function `L` that satisfies the two defining equations of the translated `while SK == 0` loop of `KeyGen` (a
+    recursion on `fuel` over the state `(SK, salt)`), started with `SK = 0`, computes the model's `keyGenLoop` with the
+    same fuel, from every salt.  Stated about an arbitrary `L` — not about `Gen.ExtraBls.KeyGen_loop` applied to a fixed
+    list of arguments — because the generated loop function takes the local variables that are free in the loop as
+    parameters: hoisting `l = ceil(..)` out of the loop in the Python adds one.  `KeyGen_fuel_eq` instantiates `L`. -/
+theorem Bls.KeyGen_loop_eq (H : HashFn) (ikm keyInfo : Bytes)
+    (L : Nat → Nat × Bytes → Except PyErr (Nat × Bytes))
+    (h0 : ∀ SK salt, L 0 (SK, salt) = if SK = 0 then throw PyErr.other else pure (SK, salt))
+    (hs : ∀ f SK salt, L (f + 1) (SK, salt) =
+      if SK = 0 then do
+        let salt := H.run salt
+        let prk := hkdfExtract H salt (ikm ++ [0])
+        let r1 ← i2osp 48 2
+        let okm ← hkdfExpand H prk (keyInfo ++ r1) 48
+        let SK := os2ip okm % suites_curve_order
+        L f (SK, salt)
+      else pure (SK, salt)) :
+    ∀ (f : Nat) (salt : Bytes), (L f (0, salt)).map (·.1) = keyGenLoop H ikm keyInfo f salt := by
   intro f
   induction f with
-  | zero => intro salt; rfl
+  | zero => intro salt; rw [h0]; rfl
   | succ f ih =>
     intro salt
-    unfold Gen.ExtraBls.KeyGen_loop keyGenLoop
+    rw [hs]
+    unfold keyGenLoop
     simp only [↓reduceIte, ← Bls.keygen_L_eq, curveOrder]
     cases i2osp 48 2 with
     | error e => rfl
@@ -273,7 +297,9 @@ theorem Bls.KeyGen_loop_eq (H : HashFn) (ikm keyInfo : Bytes) :
         · simp only [hz, ↓reduceIte]
           exact ih _
         · simp only [hz, ↓reduceIte]
-          cases f <;> simp only [Gen.ExtraBls.KeyGen_loop, hz, ↓reduceIte] <;> rfl
+          cases f
+          · rw [h0]; simp only [hz, ↓reduceIte]; rfl
+          · rw [hs]; simp only [hz, ↓reduceIte]; rfl
 
 /-- the byte string literal `b"BLS-SIG-KEYGEN-SALT-"` of the source, as the model writes it -/
 theorem Bls.keygen_salt_eq :
@@ -281,18 +307,24 @@ theorem Bls.keygen_salt_eq :
       "BLS-SIG-KEYGEN-SALT-".toUTF8.toList := by
   decide +kernel
 
-/-- `KeyGen(IKM, key_info)` as translated from the source, with its unbounded `while SK == 0` loop cut off after `f`
-    iterations (out of fuel = `PyErr.other`): for EVERY fuel `f` it is the model's loop with fuel `f` started from the salt
-    `b"BLS-SIG-KEYGEN-SALT-"`. -/
-theorem Bls.KeyGen_fuel_eq (H : HashFn) (f : Nat) (ikm keyInfo : Bytes) :
-    Gen.ExtraBls.KeyGen H f ikm keyInfo = keyGenLoop H ikm keyInfo f "BLS-SIG-KEYGEN-SALT-".toUTF8.toList := by
-  rw [← Bls.keygen_salt_eq, ← Bls.KeyGen_loop_eq]
-  unfold Gen.ExtraBls.KeyGen
-  dsimp only
-  generalize Gen.ExtraBls.KeyGen_loop H ikm keyInfo f _ = r
+/-- returning the first component of the final loop state -/
+theorem Bls.bind_fst (r : Except PyErr (Nat × Bytes)) :
+    (do let (SK, _) ← r; return SK) = r.map (·.1) := by
   cases r with
   | error e => rfl
   | ok st => cases st; rfl
+
+/-- `KeyGen(IKM, key_info)` as translated from the source, with its unbounded `while SK == 0` loop cut off after `f`
+    iterations (out of fuel = `PyErr.other`): for EVERY fuel `f` it is the model's loop with fuel `f` started from the salt
+    `b"BLS-SIG-KEYGEN-SALT-"`.  (The generated loop function is whatever `KeyGen` calls, with whatever extra arguments: the
+    two hypotheses of `KeyGen_loop_eq` are its defining equations, checked by unfolding.) -/
+theorem Bls.KeyGen_fuel_eq (H : HashFn) (f : Nat) (ikm keyInfo : Bytes) :
+    Gen.ExtraBls.KeyGen H f ikm keyInfo = keyGenLoop H ikm keyInfo f "BLS-SIG-KEYGEN-SALT-".toUTF8.toList := by
+  rw [← Bls.keygen_salt_eq]
+  unfold Gen.ExtraBls.KeyGen
+  dsimp only
+  rw [Bls.bind_fst]
+  exact Bls.KeyGen_loop_eq H ikm keyInfo _ (fun _ _ => rfl) (fun _ _ _ => rfl) f _
 
 /-- `KeyGen(IKM, key_info)` with fuel 64 is the model's `keyGen`. -/
 theorem Bls.KeyGen_eq (H : HashFn) (ikm keyInfo : Bytes) : Gen.ExtraBls.KeyGen H 64 ikm keyInfo = keyGen H ikm keyInfo := by
